@@ -660,10 +660,20 @@ def multi_disp(ctx) -> None:
     w = f.where(n.ast)
     md, vol = Poly.symbol(ast.Name(id="multi_disp", ctx=ast.Load())), Poly.symbol(ast.Name(id="volume", ctx=ast.Load()))
     ok_guard = False
+    extra = []
     for d, pol in fv.controlling(n.id, skip_raising=True):
         cm = to_cmp(fv.res.resolve(fv.cfg.nodes[d].ast, d), pol)
         if cm is not None and cm == Cmp(md * vol - M, ">"):
             ok_guard = True
+        else:
+            extra.append((fv.cfg.nodes[d], pol))
+    if ok_guard and extra:
+        # the size test holds and the reduction is still skipped (a report-once flag, a per-labware memo ..): the record
+        # then plans multi_disp * volume > max_volume per aspiration
+        ctx.rep.refuted(rule, f"{f.qualname}/when-only", f"the reduction of multi_disp additionally depends on `{show(extra[0][0].ast)[:60]}` being {extra[0][1]}: when that fails while "
+                        "multi_disp * volume > self.max_volume the record keeps the oversized multi-dispense count", where=w)
+    elif ok_guard:
+        ctx.rep.holds(rule, f"{f.qualname}/when-only", "the size test is the only condition of the reduction")
     ctx.rep.check(ok_guard, rule, f"{f.qualname}/when", "multi_disp is reduced exactly when multi_disp * volume > max_volume", "multi_disp is not reduced under the test multi_disp * volume > self.max_volume (reduced only as far as needed)", where=w)
     v = fv.res.resolve(n.ast.value, n.id)
     ok_v = call_fname(v) == "floor" and v.args and isinstance(v.args[0], ast.BinOp) and isinstance(v.args[0].op, ast.Div) and to_poly(v.args[0].left) == M and is_name(v.args[0].right, "volume")
